@@ -400,7 +400,7 @@ def cpOf (ows : List String) (h : String) : Option Nat :=
 def oracle (st : St) (pre : Impl) (op : List String) (ret : String) (ows : List String)
     (post : Impl) : List String := Id.run do
   if ret == "panic" then
-    return [s!"deltas_le_max[{if st.maxNr == 0 then "max_nr=0" else "panic"}]"]
+    return [s!"deltas_le_max[{if st.maxNr == 0 then "underflow" else "panic"}]"]
   let mut c10 : List String := []     -- per-publisher predicates (tagged with the publisher's class)
   let mut glob : List String := []    -- predicates about the repository as a whole
   let mut other : List String := []   -- predicates with their own classes
